@@ -86,12 +86,15 @@ class Ctx:
         import time
         t0 = time.time()
         s = self.solver(rlimit=rlimit)
-        s.add(sym.FACTS.facts)
-        s.add(self.pc)
+        # feasibility is decided on the nonlinear abstraction (sound for pruning: unsat there => unsat here)
+        A = sym.abstract_nl
+        s.add([A(f) for f in sym.FACTS.facts])
+        s.add([A(f) for f in self.pc])
         for lab, _ in self.labels:
             s.add(lab)
         for e in extra:
-            s.add(e)
+            s.add(A(e))
+        s.add(sym._ABS_SIDE)
         r = s.check()
         self.nsolve += 1
         self.solve_time += time.time() - t0
